@@ -50,15 +50,16 @@ def run(pid, tier, seed):
         for (trace, _), vs in zip(gens, viols):
             byrun = {}
             for v in vs:
-                byrun.setdefault(v["run"], []).append(v["p"])
+                byrun.setdefault(v["run"], []).append(v["p"] + ("@step" if v.get("at") == "step" else ""))
             if not byrun:
                 continue
             for line in open(trace):
                 d = json.loads(line)
                 if d["run"] in byrun:
                     crashed = any(e["end"] == "crashed" for e in d["execs"])
-                    for f in sorted(set(byrun[d["run"]])):
-                        sig = f"{f}:{'with' if crashed else 'no'}-crash:{d['n_files']}-files"
+                    for fs in sorted(set(byrun[d["run"]])):
+                        f = fs.split("@")[0]
+                        sig = f"{fs}:{'with' if crashed else 'no'}-crash:{d['n_files']}-files"
                         violations.append({"formula": f, "signature": sig, "replay": {"engine": "stream", "behaviour": d},
                                            "detail": f"run {d['run']} execs {json.dumps(d['execs'])[:400]}"})
         sample = json.loads(open(gens[0][0]).readline())
